@@ -715,7 +715,8 @@ func intValueFromInt(msg protoreflect.Message, val intable) (fhir.Base, error) {
 	if valueField != nil {
 		var intValue protoreflect.Value
 		switch valueField.Kind() {
-		case protoreflect.Int32Kind:
+		case protoreflect.Int32Kind, protoreflect.Sint32Kind, protoreflect.Sfixed32Kind:
+			// (FHIR integer is declared sint32 in the google/fhir protos)
 			intValue = protoreflect.ValueOfInt32(val.GetValue())
 		case protoreflect.Uint32Kind:
 			if val.GetValue() < 0 {
@@ -723,6 +724,9 @@ func intValueFromInt(msg protoreflect.Message, val intable) (fhir.Base, error) {
 			}
 			intValue = protoreflect.ValueOfUint32(uint32(val.GetValue()))
 		default:
+			// Not an integer-valued element: leave the value as it is and let the
+			// type check of the caller decide.
+			return nil, nil
 		}
 		container.Set(valueField, intValue)
 		return container.Interface(), nil
